@@ -431,10 +431,10 @@ func OP_MAP_LOAD_Handler(v *VM) {
 
 //goland:noinspection GoSnakeCaseUsage
 func OP_OBJ_LOAD_Handler(v *VM) {
-	idx, w := v.readMediumInt(v.pc)
+	name, w := v.readConst(v.pc)
 	v.pc += w
-	o := v.Pop().Obj()
-	v.Push(o.V[idx])
+	vl, _ := v.Pop().Obj().Get(name.(string))
+	v.Push(vl)
 }
 
 //goland:noinspection GoSnakeCaseUsage
